@@ -432,6 +432,9 @@ class EquationSolver(object):
                     self.TimeSeries[var].append(val)
                 except NameError:
                     failed.append((var, eqn))
+                except ArithmeticError as e:
+                    # Reported like an evaluation error of an iterated variable (see above)
+                    raise ValueError('Error evaluating variable {0} = {1}'.format(var, e))
             # If we failed on every single decoration variable, something is wrong.
             if len(failed) == len(vars_to_compute):
                 # NOTE: We should not get here; it means that the decoration variables are
